@@ -115,7 +115,7 @@ def xcheck(c, mod, rep, prop):
     if not clauses:
         return None
     try:
-        wit, n, errs = native.falsify(c, mod, rep.label, clauses, limit=(120 if tier == "quick" else None),
+        wit, n, errs = native.falsify(c, mod, rep.label, clauses, limit=(260 if tier == "quick" else None),
                                       seed=int(os.environ.get("VERIF_SEED", "0") or 0), stop_after=2)
     except Exception:  # noqa: BLE001
         return {"error": traceback.format_exc()[-600:]}
